@@ -16,6 +16,16 @@ import sys
 
 VERIF = os.path.dirname(os.path.dirname(os.path.abspath(__file__)))
 
+FOCUS7 = """
+Focus of THIS round (please follow it): look BETWEEN the modules rather than inside one function -
+ - helpers shared by several solvers (progress reporting, the Evaluator wrapper, argument checking, shared data structures, adapters, default-argument handling) where a change is harmless for most callers and wrong for one;
+ - rarely used but documented options and option COMBINATIONS (two options that each work alone);
+ - numeric tolerance sites (eps comparisons, rounding, float/int conversions) where a slightly different but plausible choice is wrong only at particular magnitudes or exact ties;
+ - invariants established in one function and relied upon in another (ordering, uniqueness, sortedness, sign conventions, index bases), broken on one path only;
+ - anything that needs a stop from outside, a budget running out, a particular seed or a second call to show.
+A change that a single plain call with typical arguments exposes is NOT wanted.
+"""
+
 FOCUS = """
 Focus of THIS round (please follow it): the change should need a FAULT or a SCHEDULE or a HISTORY to manifest, for example
  - a run stopped from outside (progress call-back returning True, a time limit firing, an iteration/node/conflict/restart budget running out) at one particular moment - e.g. right after a new best was found, in the middle of a two-step update, on the very first or the very last tick;
@@ -52,7 +62,7 @@ def main():
     if kind == "seeded":
         wt, out = f"/tmp/sa{rnd}_{pid}", f"/tmp/sa{rnd}_{pid}.out"
         tpl = open(os.path.join(VERIF, "seeded", "AGENT_BRIEF_TEMPLATE.txt")).read()
-        extra = FOCUS
+        extra = FOCUS7 if int(rnd) >= 7 else FOCUS
         if pid == "C12":
             extra = RUST_EXTRA + "\n" + extra
         ideas = used_ideas(pid)
